@@ -6,7 +6,7 @@ CONSTANTS
   WithEmptyDB = FALSE
   CDurs = {0, 1, 2, 5, 6, 9, 10, 11}
   CSGDs = {0, 1, 3, 8}
-  CReps = {0, 1, 2}
+  CReps = {0, 1}
   XNames = {"r2"}
   XDurs = {99, 0, 1, 6, 10}
   XSGDs = {0, 1, 8}
